@@ -422,6 +422,18 @@ class Run:
             return True
         if z3.is_false(cond):
             return False
+        if getattr(self, "merge_depth", 0) > 0:
+            # inside an if-conversion attempt no choice is recorded or replayed: the arm is executed only if
+            # every inner decision is forced (decided by the cached feasibility answers, identically on
+            # every re-execution); otherwise the attempt is abandoned and the `if` forks normally
+            t = self.feasible(cond)
+            f = self.feasible(z3.Not(cond))
+            if t and f:
+                raise MergeAbort()
+            if not t and not f:
+                raise PathEnd()
+            self.assume(cond if t else z3.Not(cond))
+            return bool(t)
         i = len(self.taken)
         if i < len(self.prefix):
             b = self.prefix[i]
@@ -430,8 +442,6 @@ class Run:
             f = self.feasible(z3.Not(cond))
             if t and f and getattr(self, "no_fork", False):
                 raise Reject("fork inside a comprehension / quantified context")
-            if t and f and getattr(self, "merge_depth", 0) > 0:
-                raise MergeAbort()
             if t and f:
                 b = 1
                 self.alternatives.append(self.taken + [0])
@@ -2076,15 +2086,24 @@ class Run:
                     del self.v.obligations[k]
             return False
         merged = base_heap.copy()
-        for name in set(h1.arr) | set(h2.arr):
+        joins = []
+        for name in sorted(set(h1.arr) | set(h2.arr)):
             a = h1.arr.get(name)
             b = h2.arr.get(name)
             if a is None:
                 a = h2.get(name) if name in base_heap.arr else z3.Const("%s0!%s" % (h1.tag, name), b.sort())
             if b is None:
                 b = h1.get(name) if name in base_heap.arr else z3.Const("%s0!%s" % (h2.tag, name), a.sort())
-            merged.set(name, a if a.eq(b) else z3.If(cond, a, b))
+            if a.eq(b):
+                merged.set(name, a)
+            else:
+                # a named array (so that quantifier patterns over it stay legal) defined as the guarded join
+                m_ = H.fresh("mg_" + name, a.sort())
+                joins.append(m_ == z3.If(cond, a, b))
+                merged.set(name, m_)
         self.heap = merged
+        for j_ in joins:
+            self.assume(j_)
         fr.env.clear()
         fr.env.update(merged_env)
         for f_ in f1:
